@@ -14,6 +14,7 @@ compared with the block the specification demands:
   RayleighSampleGenerator: count/shape, freshness, skip is a no-op.
 Stage T: c14_trace.py - random request sequences (n up to 10^5, positions up to 10^10) recorded on real
 generators, sample indexes IDENTIFIED by matching values, validated by Trace_Jakes.tla in one TLC run."""
+import os
 import random
 import time
 from concurrent.futures import ThreadPoolExecutor
@@ -31,6 +32,12 @@ INVS = ["TypeOK", "Count", "Aligned", "OnGrid", "PhasesFixed", "Independent", "B
         "UnitPower"]
 PROPS = ["Contiguity", "Isolation"]
 BIG = 10 ** 7
+
+
+def tlc_par():
+    """concurrent TLC processes started by this check (VERIF_PROCS limits it on a shared machine)"""
+    p = int(os.environ.get("VERIF_PROCS", "0") or 0)
+    return max(1, min(10, p)) if p else 10
 
 
 def model(kind="jakes", gens=(1, 3, 1000), skips=(2,), big=(1,), shapes=((2,),), shape0=((),), warm=(0,), maxlen=4,
@@ -537,7 +544,7 @@ def model_devs(ctx):
                           props=[prop] if prop in PROPS else [], **kw)
         return dev, prop, tlc.run(MODULE, cfg, defs=defs)
 
-    with ThreadPoolExecutor(8) as ex:
+    with ThreadPoolExecutor(max(1, tlc_par() // 2)) as ex:
         for dev, prop, r in ex.map(one, DEVS):
             if r.violated != prop:
                 raise tlc.TlcError(f"deviation {dev}: TLC was expected to refute {prop}, reported {r.violated}")
@@ -604,17 +611,17 @@ def run(ctx):
     def tlc_cfg(name):
         kw = cf[name][0]
         cfg, defs = model(**kw)
-        return tlc.run(MODULE, cfg, defs=defs, coverage=True, heap="6g" if thorough else "2g")
+        return tlc.run(MODULE, cfg, defs=defs, coverage=True)
 
     def tlc_deep():
         # model checking only (no emission): longer sequences, both generators, every public call
         cfg, defs = model(gens=(1, 3, 1000, 100000), skips=(1, 2, 99999), big=(1, 1000), shapes=((2,), (2, 3), ()),
                           shape0=((), (3,)), warm=(0, 999), maxlen=6 if thorough else 4, maxgens=2, gendef=True,
                           emit=False)
-        return tlc.run(MODULE, cfg, defs=defs, coverage=True, workers=8 if thorough else 4, heap="6g")
+        return tlc.run(MODULE, cfg, defs=defs, coverage=True, workers=4)
 
     from . import c14_trace
-    with ThreadPoolExecutor(16) as ex:
+    with ThreadPoolExecutor(tlc_par()) as ex:
         futs = {n: ex.submit(tlc_cfg, n) for n in cf}
         deep = ex.submit(tlc_deep)
         devf = ex.submit(model_devs, ctx)
